@@ -563,7 +563,8 @@ def monitor(sc, irows):
             # everything after this point is a consequence of the same defect (logged-out session that keeps its level)
             res.append((LOGOUT_LAW, k, "{sub} on behalf of a user whose account does not exist zeroed the uid of the requesting session and kept its level: %s -> %s; the session can then log in a second time" % (st, after)))
             break
-        if sel == "sub" and not has_as and uid != 0 and after == (ver, 0, lvl):
+        own_logout = sel == "sub" and not has_as and uid != 0 and after == (ver, 0, lvl)
+        if own_logout:
             pass        # the session's own account is gone: logging it out is legitimate
         elif sel not in ("hi", "login", "acc") and after != st:
             res.append(("state-changes-only-at-hi-login-acc", k, "{%s} changed the session state %s -> %s" % (sel, st, after)))
@@ -573,7 +574,7 @@ def monitor(sc, irows):
             logins += 1
             if logins > 1:
                 res.append(("login-at-most-once-per-session", k, "the session was authenticated %d times" % logins))
-        if (uid, lvl) != (after[1], after[2]):
+        if (uid, lvl) != (after[1], after[2]) and not own_logout:
             if uid != 0:
                 res.append(("login-once", k, "the user or level of an authenticated session changed: %s -> %s" % (st, after)))
             fs = full_success(m)
@@ -790,4 +791,8 @@ def run(ctx):
             "not modelled: device id / language handling of {hi}, cluster proxying, plugins (pluginFireHose), the bodies of the seven topic handlers (only whether they are reached, with which acting user, and the {pub} sender header)",
         ],
     })
-    ctx.finish()
+    ctx.finish(extra_assumptions=[
+        "history-level 'a session logs in at most once' and 'refused before login on every reachable state' are proved as *_partial under 'no log-out side effect of the me/fnd topic initialisers in the history'; the full statements are refuted in Coq (c11_login_once_history_refuted, c11_pre_login_reachable_refuted) and on the code (finding obo-sub-missing-user-logs-out-session)",
+        "c11_hist_level / c11_unauth_level_partial assume wf_msg: a granting outcome names a non-zero user and a level other than none (checked on the implementation by monitor auth-outcome-wellformed for the real authenticators)",
+        "c11_pre_login holds for every state whose level is not root (a state with uid = 0 and level root honours extra.asUser; it is reachable only through the finding above)",
+    ])
